@@ -217,8 +217,15 @@ class Encrypt(Machine):
             for name, size in op["fws"]:
                 model["fws"][name] = world.blob(host.seed, name, size)
                 host.write(f"{name}.bin", model["fws"][name])
+            # spellings of the output directory that only the OS resolves right: <root>/elsewhere/up is a symbolic link to
+            # <root>/anchor, so <root>/elsewhere/up/../dA *is* <root>/dA, while collapsing ".." textually names the decoy
+            # <root>/elsewhere/dA (which exists, so a tool that does that fails silently)
+            host.mkdir("anchor")
+            host.mkdir("elsewhere")
+            os.symlink("../anchor", host.path("elsewhere/up"))
             for d in op["dirs"]:
                 host.mkdir(d)
+                host.mkdir("elsewhere/" + d)
                 model["dirs"][d] = None
             return []
         if k == "restart":
@@ -318,6 +325,16 @@ class Encrypt(Machine):
         """Name under which the model holds the key this operation names (key directory + key name)."""
         return ("2:" if op.get("kd") else "") + op["key"]
 
+    def _outdir(self, host, model, op):
+        """The output directory as the caller spells it: plain, with a trailing slash or "/.", or through a symbolic
+        link followed by ".." (see setup)."""
+        p = host.path(op["out"])
+        v = (op["i"] * 7 + len(op["out"])) % 6
+        if v == 0:
+            model["_extra"]["outdir_through_symlink_dotdot"] = model["_extra"].get("outdir_through_symlink_dotdot", 0) + 1
+            return os.path.join(host.root, "elsewhere", "up", "..", op["out"])
+        return p + {1: "/", 2: "/."}.get(v, "")
+
     def _context(self, host, op):
         kd = host.path("keys2" if op.get("kd") else "keys")
         return kd if op.get("ctx", "path") == "path" else json.dumps({"keys_directory": kd})
@@ -333,7 +350,7 @@ class Encrypt(Machine):
                 model["_extra"]["relative_context_reads_as_json"] = model["_extra"].get("relative_context_reads_as_json", 0) + 1
             argv = ["encrypt", "encrypt-and-generate", "--firmware", fw_path, "--key-name", op["key"],
                     "--key-id", self.num(op["kid"], (op["i"], "k")), "--context", ctx,
-                    "--output-dir", host.path(op["out"]), "--hash-alg", op["hash"],
+                    "--output-dir", self._outdir(host, model, op), "--hash-alg", op["hash"],
                     "--kms-script", world.KMS_SCRIPT, "--encrypt-script", world.ENCRYPT_SCRIPT]
             argv = self.drop_defaults(argv, {"--hash-alg": "sha-256"}, op["i"])
             prev = os.getcwd()
@@ -607,7 +624,7 @@ class Encrypt(Machine):
         if op["entry"] == "cli":
             argv = ["encrypt", "generate-info", "--encrypted-firmware", asset_arg or host.path(asset_rel),
                     "--encrypted-key", host.path(f"cek{op['i']}.bin"), "--key-id", self.num(op["kid"], (op["i"], "k")),
-                    "--kw-alg", op["kw"], "--output-dir", host.path(op["out"]),
+                    "--kw-alg", op["kw"], "--output-dir", self._outdir(host, model, op),
                     "--encrypt-script", world.ENCRYPT_SCRIPT]
             argv = self.drop_defaults(argv, {"--kw-alg": "direct"}, op["i"])
             o = host.cli(argv, kind="generate-info", faults=faults)
